@@ -163,17 +163,17 @@ impl Terminal {
             },
 
             Key::Backspace => {
-                self.update_next();
                 if self.visible_cursor > 0
                     && self.visible_cursor <= self.get_current().chars().count()
                 {
+                    self.update_next();
                     self.visible_cursor -= 1;
                     remove_char_index(&mut self.buffer, self.visible_cursor);
                 }
             }
             Key::Delete => {
-                self.update_next();
                 if self.visible_cursor < self.get_current().chars().count() {
+                    self.update_next();
                     remove_char_index(&mut self.buffer, self.visible_cursor);
                 }
             }
